@@ -52,6 +52,8 @@ type gosymWorld struct {
 	snapshot  map[string]int // Unallocated() answer as first handed out, by type name
 	atQuota   bool
 	counts    map[worker.State]int
+	countsSeq []map[worker.State]int // scripted answers of CountWorkers, consumed one per call
+	notify    chan struct{}
 	log       []gosymCall
 	n         int
 	pn        int
@@ -124,7 +126,14 @@ func (p gosymPool) Unallocated() map[arvados.InstanceType]int {
 	}
 	return m
 }
-func (p gosymPool) CountWorkers() map[worker.State]int { return p.w.counts }
+func (p gosymPool) CountWorkers() map[worker.State]int {
+	if len(p.w.countsSeq) > 0 {
+		c := p.w.countsSeq[0]
+		p.w.countsSeq = p.w.countsSeq[1:]
+		return c
+	}
+	return p.w.counts
+}
 func (p gosymPool) AtQuota() bool                      { return p.w.atQuota }
 func (p gosymPool) Create(it arvados.InstanceType) bool {
 	r := gosym_Fork(p.w.name("create"))
@@ -158,6 +167,13 @@ func (p gosymPool) KillContainer(uuid, reason string) bool {
 	return r
 }
 func (p gosymPool) ForgetContainer(uuid string) { p.w.add("forget", uuid, "", true) }
+func (p gosymPool) Subscribe() <-chan struct{} {
+	if p.w.notify != nil {
+		return p.w.notify
+	}
+	return make(chan struct{})
+}
+func (p gosymPool) Unsubscribe(<-chan struct{}) {}
 
 var gosymCNames = []string{"c0", "c1", "c2", "c3"}
 var gosymITs = []arvados.InstanceType{
